@@ -156,7 +156,8 @@ pub trait CepstrumT: Buffer + Sized {
         let mut cepstrum = self.clone_with_size(m2 + 1);
         let mut f = vec![0.0; cepstrum.len()];
 
-        for i in 0..self.len() {
+        // the recursion consumes the input from the highest coefficient down to c[0]
+        for i in (0..self.len()).rev() {
             f[0] = cepstrum[0];
             cepstrum[0] = self[i] + alpha * cepstrum[0];
             if 1 <= m2 {
